@@ -1096,7 +1096,7 @@ struct CtlEngine : Engine
     std::string rule(std::string const &prop) const override
     {
         if (prop == "C12") return "items are seeded closed-loop histories (plain / fuzzy / neuron controller; exact dyadic, general floating or - one history in twelve - extreme-magnitude regime in which intermediates overflow and only the output limits are asserted; 3 plant stubs) with sensor faults, set-point jumps, retuning, mode switches and zero at arbitrary samples; every sample checks limits, finiteness, the integrator clamp clause, the documented difference equation (bit-exact in the dyadic regime; for the single-neuron controller the remembered differences, the Hebbian weight update and the normalised output, accepting both the header's and the code's reading of the formula), the empty history after zeroing, the fuzzy gain schedule against an independent evaluation (all 13 membership families, tables that may end early with A_MF_NUL, 7 operators, present or absent rule bases), restart replicas, a replica driven through the C++ member wrappers, and the positional/incremental pair; evaluations = histories; distinct_nontrivial = HyperLogLog estimate of distinct (mode, saturation flags, sign(sum), sign(err), clamp flags, controller type, active sensor fault, floor(output)) states";
-        return "items are seeded input histories through the real transfer function (orders 0..8, integer coefficients, one history in eight scaled by the smallest subnormal of a_real, four lock-step replicas: main, second input, linear combination, delayed input) or through the RC filters (dyadic or general alpha), with zero at arbitrary samples, numerator/denominator re-pointed in a running filter, a replica driven through the C++ members and initialiser macros, quiet phases with a settling bound, and coefficient generation over 24 decades (every third call over the whole positive double range); distinct_nontrivial = HyperLogLog estimate of distinct (numerator order, denominator order, binary exponent and sign of the output, exactness flag, samples since reset) states for the transfer function and (alpha in sixteenths, exponents and signs of both outputs, samples since reset) states for the RC filters";
+        return "items are seeded input histories through the real transfer function (orders 0..8 and, one history in ten, 0..160 with sparse feedback and input runs of up to 400 samples; integer coefficients, one history in eight scaled by the smallest subnormal of a_real, four lock-step replicas: main, second input, linear combination, delayed input) or through the RC filters (dyadic or general alpha), with zero at arbitrary samples, numerator/denominator re-pointed in a running filter, a replica driven through the C++ members and initialiser macros, quiet phases with a settling bound, and coefficient generation over 24 decades (every third call over the whole positive double range); distinct_nontrivial = HyperLogLog estimate of distinct (numerator order, denominator order, binary exponent and sign of the output, exactness flag, samples since reset) states for the transfer function and (alpha in sixteenths, exponents and signs of both outputs, samples since reset) states for the RC filters";
     }
     std::vector<std::string> assumptions(std::string const &prop) const override
     {
